@@ -69,7 +69,11 @@ impl Timer {
 /// The std Instant overflows from n ≈ 2^63 s on; anything ≥ 2^62 s (10^11
 /// years) is treated as never here.
 fn deadline_of(now: u64, n: u64) -> Option<u64> {
-    if n >= 1 << 62 { None } else { Some(now.saturating_add(n)) }
+    if n >= 1 << 62 {
+        None
+    } else {
+        Some(now.saturating_add(n))
+    }
 }
 
 #[derive(Clone, Copy, PartialEq, Eq, Debug)]
@@ -240,7 +244,10 @@ impl Pair {
         )
     }
     fn name(&self) -> String {
-        format!("local={} remote={} role={:?}", self.local, self.remote, self.role)
+        format!(
+            "local={} remote={} role={:?}",
+            self.local, self.remote, self.role
+        )
     }
     /// the time steps worth taking for this pair
     fn deltas(&self) -> Vec<u64> {
@@ -313,10 +320,15 @@ fn facts(outs: &[PeerFsmOutput]) -> Facts {
         match o {
             PeerFsmOutput::Connection(_, Output::SetHoldTimer(n)) => f.set_hold.push(*n),
             PeerFsmOutput::Connection(_, Output::SetKeepaliveTimer(n)) => f.set_ka.push(*n),
-            PeerFsmOutput::Connection(_, Output::SendMessage(bgp::Message::Keepalive)) => f.sent_keepalive = true,
-            PeerFsmOutput::Connection(_, Output::SessionEstablished { remote_holdtime, .. }) => {
-                f.established_remote_hold = Some(*remote_holdtime)
+            PeerFsmOutput::Connection(_, Output::SendMessage(bgp::Message::Keepalive)) => {
+                f.sent_keepalive = true
             }
+            PeerFsmOutput::Connection(
+                _,
+                Output::SessionEstablished {
+                    remote_holdtime, ..
+                },
+            ) => f.established_remote_hold = Some(*remote_holdtime),
             PeerFsmOutput::Connection(_, Output::SessionDown(reason, _)) => {
                 f.down = Some(match reason {
                     SessionDownReason::HoldTimerExpired => "hold-timer-expired",
@@ -371,7 +383,8 @@ impl Oracle {
         }
 
         if !self.exchanged {
-            if kind == Kind::Open && st_before == State::OpenSent && st_after == State::OpenConfirm {
+            if kind == Kind::Open && st_before == State::OpenSent && st_after == State::OpenConfirm
+            {
                 // the OPEN exchange completes here
                 self.exchanged = true;
                 self.h = self.local.min(self.remote);
@@ -384,14 +397,27 @@ impl Oracle {
                     if after.hold != Timer::At(Some(now + self.h)) {
                         fail(
                             "C08/negotiated/hold-timer-after-open".into(),
-                            format!("after the OPEN exchange at t={} the hold timer is {:?}, expected t+min({},{})={}", now, after.hold, self.local, self.remote, now + self.h),
+                            format!(
+                                "after the OPEN exchange at t={} the hold timer is {:?}, expected t+min({},{})={}",
+                                now,
+                                after.hold,
+                                self.local,
+                                self.remote,
+                                now + self.h
+                            ),
                         );
                         self.hold_deadline = after.hold.deadline();
                     }
                     if after.ka != Timer::At(Some(now + self.k)) {
                         fail(
                             "C08/negotiated/keepalive-timer-after-open".into(),
-                            format!("after the OPEN exchange at t={} the keepalive timer is {:?}, expected t+{}/3={}", now, after.ka, self.h, now + self.k),
+                            format!(
+                                "after the OPEN exchange at t={} the keepalive timer is {:?}, expected t+{}/3={}",
+                                now,
+                                after.ka,
+                                self.h,
+                                now + self.k
+                            ),
                         );
                         self.resync_ka(after);
                     }
@@ -401,8 +427,18 @@ impl Oracle {
                     if after.hold.finite() {
                         if let Some(n) = f.set_hold.last() {
                             fail(
-                                format!("C08/zero-disables/{}/open", if *n == 0 { "set-hold-timer-0" } else { "set-hold-timer" }),
-                                format!("negotiated hold time 0 but the OPEN step armed the hold timer with {}", n),
+                                format!(
+                                    "C08/zero-disables/{}/open",
+                                    if *n == 0 {
+                                        "set-hold-timer-0"
+                                    } else {
+                                        "set-hold-timer"
+                                    }
+                                ),
+                                format!(
+                                    "negotiated hold time 0 but the OPEN step armed the hold timer with {}",
+                                    n
+                                ),
                             );
                         } else {
                             fail(
@@ -418,9 +454,16 @@ impl Oracle {
                         fail(
                             format!(
                                 "C08/zero-disables/{}/open",
-                                if f.set_ka.last() == Some(&0) { "set-keepalive-timer-0" } else { "set-keepalive-timer" }
+                                if f.set_ka.last() == Some(&0) {
+                                    "set-keepalive-timer-0"
+                                } else {
+                                    "set-keepalive-timer"
+                                }
                             ),
-                            format!("negotiated hold time 0 but the keepalive timer is {:?} after the OPEN exchange", after.ka),
+                            format!(
+                                "negotiated hold time 0 but the keepalive timer is {:?} after the OPEN exchange",
+                                after.ka
+                            ),
                         );
                     }
                 }
@@ -441,7 +484,10 @@ impl Oracle {
             if f.established_remote_hold != Some(self.remote as u16) {
                 fail(
                     "C08/negotiated/session-established-remote-holdtime".into(),
-                    format!("SessionEstablished.remote_holdtime = {:?}, the remote advertised {}", f.established_remote_hold, self.remote),
+                    format!(
+                        "SessionEstablished.remote_holdtime = {:?}, the remote advertised {}",
+                        f.established_remote_hold, self.remote
+                    ),
                 );
             }
         }
@@ -452,16 +498,38 @@ impl Oracle {
             for n in &f.set_hold {
                 if deadline_of(now, *n).is_some() {
                     fail(
-                        format!("C08/zero-disables/{}/{}", if *n == 0 { "set-hold-timer-0" } else { "set-hold-timer" }, lab),
-                        format!("negotiated hold time 0 but {} armed the hold timer with {} s (the driver turns it into sleep({}))", lab, n, n),
+                        format!(
+                            "C08/zero-disables/{}/{}",
+                            if *n == 0 {
+                                "set-hold-timer-0"
+                            } else {
+                                "set-hold-timer"
+                            },
+                            lab
+                        ),
+                        format!(
+                            "negotiated hold time 0 but {} armed the hold timer with {} s (the driver turns it into sleep({}))",
+                            lab, n, n
+                        ),
                     );
                 }
             }
             for n in &f.set_ka {
                 if deadline_of(now, *n).is_some() {
                     fail(
-                        format!("C08/zero-disables/{}/{}", if *n == 0 { "set-keepalive-timer-0" } else { "set-keepalive-timer" }, lab),
-                        format!("negotiated hold time 0 but {} armed the keepalive timer with {} s", lab, n),
+                        format!(
+                            "C08/zero-disables/{}/{}",
+                            if *n == 0 {
+                                "set-keepalive-timer-0"
+                            } else {
+                                "set-keepalive-timer"
+                            },
+                            lab
+                        ),
+                        format!(
+                            "negotiated hold time 0 but {} armed the keepalive timer with {} s",
+                            lab, n
+                        ),
                     );
                 }
             }
@@ -471,7 +539,10 @@ impl Oracle {
                     if !alive_after {
                         fail(
                             if kind == Kind::HoldFire {
-                                format!("C08/zero-disables/session-down-by-hold-timer/armed-by-{}", armed_by)
+                                format!(
+                                    "C08/zero-disables/session-down-by-hold-timer/armed-by-{}",
+                                    armed_by
+                                )
                             } else {
                                 "C08/zero-disables/session-down-by-keepalive-timer".to_string()
                             },
@@ -503,13 +574,19 @@ impl Oracle {
                                 None => "unexpected",
                             }
                         ),
-                        format!("hold timer expired at t={}, but nothing-received-for-{}s is reached at {:?}", now, self.h, self.hold_deadline),
+                        format!(
+                            "hold timer expired at t={}, but nothing-received-for-{}s is reached at {:?}",
+                            now, self.h, self.hold_deadline
+                        ),
                     );
                 }
                 if f.down != Some("hold-timer-expired") {
                     fail(
                         "C08/expiry-iff/expiry-ignored".into(),
-                        format!("hold timer expired at t={} in {:?} but the session was not torn down for it ({:?})", now, st_before, f.down),
+                        format!(
+                            "hold timer expired at t={} in {:?} but the session was not torn down for it ({:?})",
+                            now, st_before, f.down
+                        ),
                     );
                 }
             }
@@ -518,7 +595,10 @@ impl Oracle {
                 if !f.sent_keepalive {
                     fail(
                         "C08/negotiated/no-keepalive-sent".into(),
-                        format!("keepalive timer expired at t={} in {:?} but no KEEPALIVE was sent", now, st_before),
+                        format!(
+                            "keepalive timer expired at t={} in {:?} but no KEEPALIVE was sent",
+                            now, st_before
+                        ),
                     );
                 }
                 self.last_ka_tx = now;
@@ -526,7 +606,10 @@ impl Oracle {
                 if !alive_after {
                     fail(
                         "C08/expiry-iff/keepalive-timer-killed-session".into(),
-                        format!("the keepalive timer expiry at t={} tore the session down", now),
+                        format!(
+                            "the keepalive timer expiry at t={} tore the session down",
+                            now
+                        ),
                     );
                 }
             }
@@ -552,12 +635,18 @@ impl Oracle {
             if matches!(kind, Kind::Ka | Kind::Upd) {
                 fail(
                     format!("C08/re-arm/not-rearmed-by-{}", lab),
-                    format!("{} received at t={} must move the hold deadline to {:?}; the driver's hold timer is {:?} (was {:?})", lab, now, self.hold_deadline, after.hold, before.hold),
+                    format!(
+                        "{} received at t={} must move the hold deadline to {:?}; the driver's hold timer is {:?} (was {:?})",
+                        lab, now, self.hold_deadline, after.hold, before.hold
+                    ),
                 );
             } else {
                 fail(
                     format!("C08/re-arm/{}", lab),
-                    format!("{} at t={} moved the hold deadline from {:?} to {:?}; only KEEPALIVE / UPDATE receipt may", lab, now, before.hold, after.hold),
+                    format!(
+                        "{} at t={} moved the hold deadline from {:?} to {:?}; only KEEPALIVE / UPDATE receipt may",
+                        lab, now, before.hold, after.hold
+                    ),
                 );
             }
             self.hold_deadline = after.hold.deadline();
@@ -611,15 +700,23 @@ fn render_outs(outs: &[PeerFsmOutput]) -> String {
             PeerFsmOutput::StopActiveConnect => "StopActiveConnect".to_string(),
             PeerFsmOutput::Connection(_, out) => match out {
                 Output::SendMessage(bgp::Message::Keepalive) => "Send KEEPALIVE".into(),
-                Output::SendMessage(bgp::Message::Open(o)) => format!("Send OPEN(hold={})", o.holdtime.seconds()),
+                Output::SendMessage(bgp::Message::Open(o)) => {
+                    format!("Send OPEN(hold={})", o.holdtime.seconds())
+                }
                 Output::SendMessage(bgp::Message::Notification(n)) => {
-                    format!("Send NOTIFICATION({}/{})", n.notification_code(), n.notification_subcode())
+                    format!(
+                        "Send NOTIFICATION({}/{})",
+                        n.notification_code(),
+                        n.notification_subcode()
+                    )
                 }
                 Output::SendMessage(_) => "Send ...".into(),
                 Output::SetKeepaliveTimer(n) => format!("SetKeepaliveTimer({})", n),
                 Output::SetHoldTimer(n) => format!("SetHoldTimer({})", n),
                 Output::SessionNegotiated(_) => "SessionNegotiated".into(),
-                Output::SessionEstablished { remote_holdtime, .. } => format!("SessionEstablished(remote_holdtime={})", remote_holdtime),
+                Output::SessionEstablished {
+                    remote_holdtime, ..
+                } => format!("SessionEstablished(remote_holdtime={})", remote_holdtime),
                 Output::SessionDown(r, n) => format!(
                     "SessionDown({}{})",
                     match r {
@@ -631,7 +728,11 @@ fn render_outs(outs: &[PeerFsmOutput]) -> String {
                         SessionDownReason::IoError => "IoError",
                     },
                     match n {
-                        Some(bgp::Message::Notification(n)) => format!(", NOTIFICATION {}/{}", n.notification_code(), n.notification_subcode()),
+                        Some(bgp::Message::Notification(n)) => format!(
+                            ", NOTIFICATION {}/{}",
+                            n.notification_code(),
+                            n.notification_subcode()
+                        ),
                         _ => String::new(),
                     }
                 ),
@@ -674,7 +775,12 @@ impl<'a> Session<'a> {
         let outs = s.fsm.process(pair.role, Input::Connected(false));
         let down = s.drv.apply_outputs(&outs);
         if want_trace {
-            s.trace.push(format!("t=0 connected -> [{}] hold={:?} ka={:?}", render_outs(&outs), s.drv.hold, s.drv.ka));
+            s.trace.push(format!(
+                "t=0 connected -> [{}] hold={:?} ka={:?}",
+                render_outs(&outs),
+                s.drv.hold,
+                s.drv.ka
+            ));
         }
         s.alive = !down;
         s
@@ -688,8 +794,12 @@ impl<'a> Session<'a> {
             Kind::KaFire => Input::KeepaliveTimerExpired,
             Kind::Open => Input::MessageReceived(self.pair.open.clone()),
             Kind::Ka => Input::MessageReceived(bgp::Message::Keepalive),
-            Kind::Upd => Input::MessageReceived(bgp::Message::Update(bgp::Update::EndOfRib(Family::IPV4))),
-            Kind::Rr => Input::MessageReceived(bgp::Message::RouteRefresh { family: Family::IPV4 }),
+            Kind::Upd => {
+                Input::MessageReceived(bgp::Message::Update(bgp::Update::EndOfRib(Family::IPV4)))
+            }
+            Kind::Rr => Input::MessageReceived(bgp::Message::RouteRefresh {
+                family: Family::IPV4,
+            }),
             Kind::UpdSent => Input::UpdateSent,
         };
         let outs = self.fsm.process(self.pair.role, input);
@@ -715,7 +825,8 @@ impl<'a> Session<'a> {
         }
         let after = self.drv;
         self.judged += 1;
-        self.oracle.judge(kind, st_before, st_after, &f, &before, &after, t, out);
+        self.oracle
+            .judge(kind, st_before, st_after, &f, &before, &after, t, out);
         if down {
             self.alive = false;
         }
@@ -730,7 +841,15 @@ impl<'a> Session<'a> {
                 return;
             }
             *budget -= 1;
-            self.deliver(if fire == Fire::Hold { Kind::HoldFire } else { Kind::KaFire }, t, out);
+            self.deliver(
+                if fire == Fire::Hold {
+                    Kind::HoldFire
+                } else {
+                    Kind::KaFire
+                },
+                t,
+                out,
+            );
         }
     }
 
@@ -789,7 +908,13 @@ impl<'a> Session<'a> {
 
 /// Run a timed history; findings of the last event only are returned (earlier
 /// events were judged when the shorter history was run).
-fn run_history(pair: &Pair, evs: &[Ev], all_findings: bool, t: &mut Tally, want_trace: bool) -> Run {
+fn run_history(
+    pair: &Pair,
+    evs: &[Ev],
+    all_findings: bool,
+    t: &mut Tally,
+    want_trace: bool,
+) -> Run {
     let mut s = Session::new(pair, want_trace);
     let mut run = Run {
         findings_last: Vec::new(),
@@ -803,7 +928,11 @@ fn run_history(pair: &Pair, evs: &[Ev], all_findings: bool, t: &mut Tally, want_
         let last = i + 1 == evs.len();
         let exchanged_before = s.oracle.exchanged;
         let mut found = Vec::new();
-        let tally: &mut Tally = if last || all_findings { &mut *t } else { &mut scratch_t };
+        let tally: &mut Tally = if last || all_findings {
+            &mut *t
+        } else {
+            &mut scratch_t
+        };
         let before_n = s.judged;
         if want_trace {
             s.trace.push(format!("-- {}", ev_str(*e)));
@@ -830,7 +959,10 @@ fn run_history(pair: &Pair, evs: &[Ev], all_findings: bool, t: &mut Tally, want_
     if s.storm {
         run.findings_last.push(Finding {
             sig: "__storm__".into(),
-            what: format!("more than {} timer expiries within one event", MAX_FIRINGS_PER_EVENT),
+            what: format!(
+                "more than {} timer expiries within one event",
+                MAX_FIRINGS_PER_EVENT
+            ),
         });
     }
     run.trace = std::mem::take(&mut s.trace);
@@ -850,7 +982,12 @@ fn witness(pair: &Pair, evs: &[Ev], trace: &[String]) -> Json {
 fn record(rep: &mut Report, pair: &Pair, evs: &[Ev], findings: Vec<Finding>) {
     for f in findings {
         if f.sig == "__storm__" {
-            rep.inconclusive(&format!("timer storm: {} ({} {:?})", f.what, pair.name(), evs.iter().map(|e| ev_str(*e)).collect::<Vec<_>>()));
+            rep.inconclusive(&format!(
+                "timer storm: {} ({} {:?})",
+                f.what,
+                pair.name(),
+                evs.iter().map(|e| ev_str(*e)).collect::<Vec<_>>()
+            ));
             continue;
         }
         if rep.has_violation(&f.sig) {
@@ -871,7 +1008,9 @@ fn record(rep: &mut Report, pair: &Pair, evs: &[Ev], findings: Vec<Finding>) {
 /// what the daemon sends.  Wall-clock, so the result is never a verdict of its
 /// own: it is compared with what `VDriver` predicts for the same history.
 mod real {
-    use super::super::super::{Global, GlobalHandle, PeerParams, RouteReflectorConfig, accept_connection};
+    use super::super::super::{
+        Global, GlobalHandle, PeerParams, RouteReflectorConfig, accept_connection,
+    };
     use crate::fsm::{Role, State};
     use crate::table_manager::{TableHandle, TableManager};
     use fnv::FnvHashMap;
@@ -896,13 +1035,21 @@ mod real {
     }
 
     pub(super) fn probe(local_hold: u64, remote_hold: u16, observe_ms: u64) -> Observed {
-        let rt = match tokio::runtime::Builder::new_multi_thread().worker_threads(2).enable_all().build() {
+        let rt = match tokio::runtime::Builder::new_multi_thread()
+            .worker_threads(2)
+            .enable_all()
+            .build()
+        {
             Ok(rt) => rt,
             Err(e) => {
-                return Observed { error: Some(format!("runtime: {}", e)), ..Default::default() };
+                return Observed {
+                    error: Some(format!("runtime: {}", e)),
+                    ..Default::default()
+                };
             }
         };
-        let obs = rt.block_on(async move { probe_async(local_hold, remote_hold, observe_ms).await });
+        let obs =
+            rt.block_on(async move { probe_async(local_hold, remote_hold, observe_ms).await });
         rt.shutdown_timeout(Duration::from_millis(500));
         obs
     }
@@ -1008,7 +1155,10 @@ mod real {
             as_number: 65002,
             holdtime: HoldTime::new(remote_hold).unwrap(),
             router_id: u32::from(Ipv4Addr::new(10, 0, 0, 2)),
-            capability: vec![Capability::MultiProtocol(Family::IPV4), Capability::FourOctetAsNumber(65002)],
+            capability: vec![
+                Capability::MultiProtocol(Family::IPV4),
+                Capability::FourOctetAsNumber(65002),
+            ],
         });
         let mut tx = bytes::BytesMut::with_capacity(256);
         let _ = codec.encode_to(&open, &mut tx);
@@ -1039,7 +1189,8 @@ mod real {
                 match m {
                     bgp::ParsedMessage::Keepalive => obs.keepalives_ms.push(ms),
                     bgp::ParsedMessage::Notification(n) => {
-                        obs.notification = Some((ms, n.notification_code(), n.notification_subcode()));
+                        obs.notification =
+                            Some((ms, n.notification_code(), n.notification_subcode()));
                         break 'obs;
                     }
                     _ => {}
@@ -1053,7 +1204,14 @@ mod real {
 }
 
 /// What the virtual-time model predicts for the probe's history.
-fn model_prediction(local: u16, remote: u16, observe_s: u64) -> (bool /*dies of hold expiry*/, Option<u64> /*at second*/) {
+fn model_prediction(
+    local: u16,
+    remote: u16,
+    observe_s: u64,
+) -> (
+    bool,        /*dies of hold expiry*/
+    Option<u64>, /*at second*/
+) {
     let pair = Pair::new(local, remote, Role::Passive);
     let mut t = Tally::default();
     let mut sink = Vec::new();
@@ -1081,7 +1239,13 @@ fn model_prediction(local: u16, remote: u16, observe_s: u64) -> (bool /*dies of 
 
 fn real_sessions(rep: &mut Report) {
     // (local, remote, seconds observed)
-    for (l, r, secs) in [(0u16, 0u16, 2u64), (90, 0, 2), (0, 90, 2), (3, 3, 5), (9, 3, 5)] {
+    for (l, r, secs) in [
+        (0u16, 0u16, 2u64),
+        (90, 0, 2),
+        (0, 90, 2),
+        (3, 3, 5),
+        (9, 3, 5),
+    ] {
         let obs = real::probe(l as u64, r, secs * 1000 + 500);
         let (model_dies, model_at) = model_prediction(l, r, secs);
         let real_hold_expired = matches!(obs.notification, Some((_, 4, _)));
@@ -1109,11 +1273,17 @@ fn real_sessions(rep: &mut Report) {
         rep.sample(Json::obj(vec![
             ("real_session", Json::s(format!("local={} remote={}", l, r))),
             ("sent_open_hold", Json::i(obs.open_hold)),
-            ("keepalives_ms", Json::arr(obs.keepalives_ms.iter().map(|x| Json::i(*x)))),
-            ("notification_ms_code_subcode", match obs.notification {
-                Some((ms, c, sc)) => Json::arr([Json::i(ms), Json::i(c), Json::i(sc)]),
-                None => Json::Null,
-            }),
+            (
+                "keepalives_ms",
+                Json::arr(obs.keepalives_ms.iter().map(|x| Json::i(*x))),
+            ),
+            (
+                "notification_ms_code_subcode",
+                match obs.notification {
+                    Some((ms, c, sc)) => Json::arr([Json::i(ms), Json::i(c), Json::i(sc)]),
+                    None => Json::Null,
+                },
+            ),
             ("eof_ms", obs.eof_ms.map(Json::i).unwrap_or(Json::Null)),
             ("model_dies_of_hold_expiry", Json::Bool(model_dies)),
             ("model_at_s", model_at.map(Json::i).unwrap_or(Json::Null)),
@@ -1123,7 +1293,11 @@ fn real_sessions(rep: &mut Report) {
 }
 
 fn shard_index(p: &Params) -> usize {
-    p.shard.rsplit('-').next().and_then(|s| s.parse().ok()).unwrap_or(0)
+    p.shard
+        .rsplit('-')
+        .next()
+        .and_then(|s| s.parse().ok())
+        .unwrap_or(0)
 }
 
 fn exhaustive(rep: &mut Report, params: &Params, depth: usize, t: &mut Tally) {
@@ -1160,14 +1334,25 @@ fn exhaustive(rep: &mut Report, params: &Params, depth: usize, t: &mut Tally) {
                             _ => {
                                 rep.evals(run.judged_last);
                                 if run.last_nontrivial {
-                                    let mut key = vec![*l as u8, (*l >> 8) as u8, *r as u8, (*r >> 8) as u8, role as u8];
+                                    let mut key = vec![
+                                        *l as u8,
+                                        (*l >> 8) as u8,
+                                        *r as u8,
+                                        (*r >> 8) as u8,
+                                        role as u8,
+                                    ];
                                     key.extend_from_slice(&code);
                                     rep.nontrivial(fnv64(&key));
                                 }
                                 if !run.findings_last.is_empty() {
                                     record(rep, &pair, &evs, run.findings_last);
                                 }
-                                if rep.want_sample() && d == depth && run.last_nontrivial && evs[d - 1] == Ev::Ka && *l == 9 {
+                                if rep.want_sample()
+                                    && d == depth
+                                    && run.last_nontrivial
+                                    && evs[d - 1] == Ev::Ka
+                                    && *l == 9
+                                {
                                     let mut t2 = Tally::default();
                                     let r2 = run_history(&pair, &evs, true, &mut t2, true);
                                     rep.sample(witness(&pair, &evs, &r2.trace));
@@ -1229,7 +1414,15 @@ fn random_histories(rep: &mut Report, params: &Params, count: u64, t: &mut Tally
                 }
             }
         };
-        let pair = Pair::new(pick(&mut rng), pick(&mut rng), if rng.bool() { Role::Active } else { Role::Passive });
+        let pair = Pair::new(
+            pick(&mut rng),
+            pick(&mut rng),
+            if rng.bool() {
+                Role::Active
+            } else {
+                Role::Passive
+            },
+        );
         let h = pair.local.min(pair.remote) as u64;
         let k = h / 3;
         let len = rng.range(8, 60) as usize;
@@ -1252,7 +1445,11 @@ fn random_histories(rep: &mut Report, params: &Params, count: u64, t: &mut Tally
                     3 => Ev::Rr,
                     4 => Ev::UpdSent,
                     _ => {
-                        let to_hold = shadow.drv.hold.deadline().map(|d| d.saturating_sub(shadow.drv.now));
+                        let to_hold = shadow
+                            .drv
+                            .hold
+                            .deadline()
+                            .map(|d| d.saturating_sub(shadow.drv.now));
                         let d = match (rng.usize(8), to_hold) {
                             (0, Some(x)) => x,
                             (1, Some(x)) => x.saturating_sub(1),
@@ -1278,7 +1475,12 @@ fn random_histories(rep: &mut Report, params: &Params, count: u64, t: &mut Tally
         }
         let run = run_history(&pair, &evs, true, t, false);
         rep.evals(run.judged_last);
-        let mut key = vec![pair.local as u8, (pair.local >> 8) as u8, pair.remote as u8, (pair.remote >> 8) as u8];
+        let mut key = vec![
+            pair.local as u8,
+            (pair.local >> 8) as u8,
+            pair.remote as u8,
+            (pair.remote >> 8) as u8,
+        ];
         for e in &evs {
             key.extend_from_slice(ev_str(*e).as_bytes());
         }
